@@ -39,10 +39,10 @@ SKIP = {"shape", "payload_order", "is_empty", "pairwise_significance_tests",
 UNCHANGED = {"table_base_range", "table_margin_range", "dimension_types"}
 
 
-def public_props(obj):
+def public_props(obj, skip=SKIP):
     out = []
     for name in dir(type(obj)):
-        if name.startswith("_") or name in SKIP:
+        if name.startswith("_") or name in skip:
             continue
         if isinstance(getattr(type(obj), name, None), lazyproperty):
             out.append(name)
